@@ -1172,6 +1172,9 @@ def deser_correspondence(case, impl, model):
     """phase-one model vs the real deserialize_single_field, field by field"""
     if "phase1_rejects" not in impl or "phase1" not in model:
         return None
+    if model.get("p1VsDeser") is False:
+        return (f"the two Lean models of deserialization's first phase disagree (Sem/Errors p1Rejects vs Sem/Deser deser) "
+                f"for document {json.dumps(impl.get('doc_actual'), ensure_ascii=False)[:300]}")
     m, r = sorted(model["phase1"]), sorted(impl["phase1_rejects"])
     if m != r:
         return (f"phase one of deserialization: model rejects {m}, real deserialize_single_field rejects {r} "
